@@ -7,9 +7,10 @@ from props._util import rng_for, run_cases
 
 LEVEL = "other"
 DEDUCTIVE = [{"module": "rnapolis.common", "sidecar": "contracts.common_elems_c",
-              "opts": {"z3_probe_ms": 800},
-              "targets": ["BpSeq.__post_init__", "BpSeq.__post_init__@any", "BpSeq.sequence", "BpSeq.from_dotbracket",
-                          "DotBracket.__post_init__@full", "DotBracket.without_pseudoknots", "BpSeq.without_pseudoknots",
+              "targets": ["BpSeq.__post_init__", "BpSeq.__post_init__@any", "BpSeq.sequence", "DotBracket.__post_init__@full"]},
+             {"module": "rnapolis.common", "sidecar": "contracts.common_elems_c",
+              "opts": {"z3_probe_ms": 800},  # stage order: short z3 attempt, cvc5, then the usual z3 stages
+              "targets": ["BpSeq.from_dotbracket", "DotBracket.without_pseudoknots", "BpSeq.without_pseudoknots",
                           "BpSeq.without_isolated"]}]
 TRUSTED = ["z3 5.1.0 / cvc5 1.0.3", "pyvc encoding of Python semantics (DESIGN 2.3)", "CPython 3.12",
            "external re.sub (contracts.common_elems_c._re_sub_brackets): for the one call of DotBracket.without_pseudoknots, a "
